@@ -226,6 +226,8 @@ def rule_body_text(ctx, file, s):
     # R-constclosure: `|_| Enum::Variant` (argument ignored, unit-variant body) gets the ensures it trivially satisfies
     s = sub("R-constclosure", r"\|_\|\s*(\w+)::(\w+)\s*\)", r"|_e| -> (__r: \1) ensures __r is \2 { \1::\2 })", s)
     s = sub("R-underscore", r"\|_\|", "|_e|", s)
+    # R-vecfrom: `Vec::from(x)` for a slice x is `x.to_vec()` (body of `impl From<&[T]> for Vec<T>`); vstd specifies to_vec only
+    s = sub("R-vecfrom", r"\bVec::from\((\w+)\)", r"(\1).to_vec()", s)
     # R-localtype: a fn-local `type A = T;` is inlined (Verus rejects item statements); `A::f` -> `<T>::f`
     for m in list(re.finditer(r"\btype (\w+) = ([^;]+);", s)):
         name, ty = m.group(1), m.group(2).strip()
